@@ -1268,6 +1268,19 @@ pub fn build_ast(tape: &[u16]) -> GrammarSpec {
         }
         rules.push(RuleSpec { name: names[i].clone(), annotation, meta: Meta::default(), alts });
     }
+    // production kinds name structs without the rule prefix: the same kind in two rules yields two
+    // definitions of one type (recorded C11 finding), so kinds are made unique per rule except
+    // in one grammar out of eight
+    if c.pick(8) != 0 {
+        for r in rules.iter_mut() {
+            let rn = r.name.clone();
+            for a in r.alts.iter_mut() {
+                if let Some(k) = a.meta.kind.as_mut() {
+                    k.push_str(&rn);
+                }
+            }
+        }
+    }
     // statements: one per body rule (some left unreachable)
     let mut stmt_alts = vec![];
     for i in first_body..total {
